@@ -449,7 +449,7 @@ struct SymbolData {
 impl SymbolData {
     /// Calculates the source range of this symbol, given the name of the label.
     fn span(&self, label: &str) -> Range<usize> {
-        self.src_start .. (self.src_start + label.len())
+        self.src_start .. self.src_start.saturating_add(label.len())
     }
 }
 
